@@ -55,6 +55,9 @@ pub struct Cfg {
     pub prefilled: Vec<(String, Vec<Ev>)>,
     /// build the Cli with the deprecated `Cli::new` instead of the builder
     pub deprecated_ctor: bool,
+    /// refine the canonical key by the one-step behaviour signature (small configurations only: every
+    /// key computation costs one execution per event)
+    pub refine: bool,
     /// collect a hash of every transition projected on feature-independent observations (C16)
     pub digest: Option<std::sync::Arc<std::sync::Mutex<std::collections::HashSet<u64>>>>,
 }
@@ -687,6 +690,9 @@ impl<C: Autocomplete + Help> Model for SessModel<C> {
             // screen defect cannot inflate the state space of an unrelated exploration
             k.tline.clear();
             k.tcol = 0;
+        }
+        if self.cfg.refine {
+            k.sig = behaviour_sig::<C>(s, &self.cfg.events, self.cfg.mon.term || self.cfg.mon.framing);
         }
         k
     }
